@@ -34,3 +34,54 @@ META = {
 }
 
 SPECIAL = {}
+
+# ---------------------------------------------------------------------------
+# MANIFEST content
+# ---------------------------------------------------------------------------
+
+HOOKS = {
+    "guard": "--cfg nvzqz_divan_verif",
+    "enable": "RUSTFLAGS='--cfg nvzqz_divan_verif' (set by lib/vk.py when /repo/src/verif_seam.rs exists); "
+              "harness modules are attached to a scratch copy of /repo under #[cfg(kani)], never to /repo itself",
+    "baseline_off_cmd": "cd /repo && cargo test --workspace --no-fail-fast --offline",
+    "source_commits": [],
+    "add_only": True,
+}
+
+NOTES = ("Every check copies /repo's current working tree to a scratch directory, attaches the Kani harness modules "
+         "from /verif/harness with #[path], compiles with cargo kani and lets CBMC decide each harness; exit 2 means "
+         "inconclusive (timeout, memory cap, harness no longer compiles) and is never reported as success.")
+
+_T = "bounded symbolic execution of the real functions with Kani/CBMC (SAT), harness vs reference model"
+
+CLAIMS = {
+    "C09": {
+        "text": "For 1 and 2 consecutive allocator requests with fully symbolic kind, layout, pointer, new size and "
+                "inner return value, CBMC proves that AllocProfiler<Mock> issues exactly the same request(s) to the "
+                "wrapped allocator and returns its result bit-for-bit; every input inside the bound is covered, which "
+                "no finite set of test layouts can do.",
+        "note": "Trusted: Kani/CBMC translation; Mock allocator as the observer. Not decided: re-entrancy and real TLS "
+                "start-up/tear-down (modelled as try_current() -> None).",
+        "technique": _T,
+    },
+    "C10": {
+        "text": "Inductive argument decided by the solver: clear()/new() establish the representation invariant and every "
+                "tally operation, from an arbitrary invariant-satisfying 12-field state with arbitrary sizes, updates "
+                "exactly its own counters by the exact amounts and keeps max = max(old max, new current); plus 3-5 step "
+                "symbolic sequences against a prefix-maximum model and 2 requests through the public GlobalAlloc surface.",
+        "note": "Trusted: Kani/CBMC. Assumes magnitudes <= 2^62 (overflow documented as unchecked). The per-thread clause "
+                "(other threads never change it) is a property of thread_local! and is not decided.",
+        "technique": _T + "; one inductive step from an arbitrary state",
+    },
+}
+
+NOT_APPLICABLE = {
+    "C06": "Broadcast over real threads (rendezvous channels, park/unpark, release/acquire): Kani has no thread model "
+           "(thread::spawn, mpsc, park unsupported; catch_unwind ICEs kani-compiler 0.68) and CBMC's concurrency support "
+           "is C/pthreads only; a hand-written SMT encoding of the interleavings would be a model, not the real code.",
+    "C07": "Deadlock / lost wake-up / leak freedom over all schedules: same reason as C06, and a liveness property, "
+           "which bounded safety checking of sequential code does not express.",
+}
+for _p in ("C01", "C02", "C03", "C04", "C05", "C08", "C11", "C12", "C13", "C14", "C15", "C16", "C17", "C18", "C19", "C20"):
+    if _p not in CLAIMS:
+        NOT_APPLICABLE[_p] = "check under construction in this session (see DESIGN.md section 3 for the plan); not claimed until its harnesses are committed"
